@@ -207,6 +207,9 @@ func (s *Module) Init(currChainHeight uint32) error {
 	if err == nil && pOld >= p-s.syncInterval {
 		// old point is still valid, so try to resync states for this point.
 		p = pOld
+		if err = s.checkTrustedHeader(p); err != nil {
+			return err
+		}
 	} else {
 		if err == nil {
 			// pOld was found, it is outdated, and chain wasn't completely synchronised for pOld. Need to drop the db.
@@ -224,6 +227,9 @@ func (s *Module) Init(currChainHeight uint32) error {
 		// current chain's state until new state is completely fetched, outdated state-related data
 		// will be removed from storage during (*Blockchain).jumpToState(...) execution.
 		// All we need to do right now is to remove genesis-related MPT nodes.
+		if err = s.checkTrustedHeader(p); err != nil {
+			return err
+		}
 		err = s.stateMod.CleanStorage()
 		if err != nil {
 			return fmt.Errorf("failed to remove outdated MPT data from storage: %w", err)
@@ -238,6 +244,34 @@ func (s *Module) Init(currChainHeight uint32) error {
 		zap.Uint32("remoteBlockHeight", currChainHeight),
 		zap.String("mode", s.mode.String()))
 	return s.defineSyncStage()
+}
+
+// checkTrustedHeader checks that the trusted header (if set) is suitable for
+// synchronisation to the given point. Headers are fetched starting from the
+// trusted one, whereas the last stage of the process needs blocks (and thus
+// verified headers) starting from p-MaxTraceableBlocks+1. MaxTraceableBlocks
+// value at p is a part of the state which is not known yet, but Policy can only
+// lower it, so the configured value is the upper bound.
+func (s *Module) checkTrustedHeader(p uint32) error {
+	var (
+		cfg        = s.bc.GetConfig()
+		mtb        = max(cfg.MaxTraceableBlocks, cfg.Genesis.MaxTraceableBlocks)
+		firstBlock = uint32(1)
+	)
+	if cfg.TrustedHeader.Index == 0 {
+		return nil
+	}
+	if p > mtb {
+		firstBlock = p - mtb + 1
+	}
+	// A database filled with headers before the trusted header was configured has
+	// all of them.
+	if cfg.TrustedHeader.Index > firstBlock && s.bc.GetHeaderHash(firstBlock).Equals(util.Uint256{}) {
+		return fmt.Errorf("misconfigured trusted header height: state synchronisation for point %d needs headers "+
+			"starting from %d, but trusted header height is %d; set trusted header to this height or lower",
+			p, firstBlock, cfg.TrustedHeader.Index)
+	}
+	return nil
 }
 
 // InitContractStorageSync prepares Module for contract storage items
